@@ -480,6 +480,9 @@ def fixed_cases():
     # nearly horizontal refracted ray whose first depth grid has a single node (linspace(..., 1): step = nan)
     a, b = [0.0, 0.0, -132.43983887845013], [-28.45448658053962, 90.75169159342167, -134.05176547190752]
     out.append(("basic", {"tracer": "BasicRayTracer", "from": a, "to": b}, BasicRayTracer(a, b)))
+    # both endpoints deep below z_uniform, ray nearly horizontal (secant of the ray angle ~ 170)
+    a, b = [-70.27029484231639, 0.0, -881.3825847866376], [-452.3974861826025, -582.1458153110348, -877.230682432775]
+    out.append(("specialized", {"tracer": "SpecializedRayTracer", "from": a, "to": b, "near_z_uniform": "deep-horizontal"}, SpecializedRayTracer(a, b)))
     # nearly vertical (beta below the tracer's beta tolerance) across z_uniform
     a, b = [0.0, 0.0, -900.0], [1.5, 0.5, -150.0]
     out.append(("specialized", {"tracer": "SpecializedRayTracer", "from": a, "to": b}, SpecializedRayTracer(a, b)))
